@@ -389,7 +389,11 @@ pub fn run_main(o: &RunOpts) -> i32 {
     let rdir = verif_dir().join("replays");
     let _ = fs::create_dir_all(&rdir);
     let mut replay_paths = Vec::new();
-    for (sig, v, n) in &unknown {
+    for (i, (sig, v, n)) in unknown.iter().enumerate() {
+        if i >= 40 {
+            println!("... and {} more violation signatures (not written out)", unknown.len() - i);
+            break;
+        }
         let name = format!("{}-{:016x}.json", o.id, hash64(sig));
         let p = rdir.join(name);
         let body = json!({"signature": sig, "count": n, "detail": v.detail, "violation": v});
